@@ -45,12 +45,14 @@ def absRat (x : Rat) : Rat := if x < 0 then -x else x
 
 def maxRat (a b : Rat) : Rat := if a < b then b else a
 
-/-- Round-off allowance `2⁻⁴⁰ · max(1,|a|,|b|)`. -/
-def tol (a b : Rat) : Rat := maxRat 1 (maxRat (absRat a) (absRat b)) / 1099511627776
+/-- Round-off allowance `2⁻⁴⁰ · max(scale,|a|,|b|)`; `scale` bounds the magnitude of the
+operands of the floating-point expression that produced one of the two numbers. -/
+def tol (a b : Rat) (scale : Rat := 1) : Rat :=
+  maxRat scale (maxRat (absRat a) (absRat b)) / 1099511627776
 
 /-- Is `a ≤ b`?  forced when `|a-b| > tol`. -/
-def cmpLe (a b : Rat) : Cmp :=
-  if absRat (a - b) ≤ tol a b then .free else .forced (decide (a ≤ b))
+def cmpLe (a b : Rat) (scale : Rat := 1) : Cmp :=
+  if absRat (a - b) ≤ tol a b scale then .free else .forced (decide (a ≤ b))
 
 /-- Resolve a comparison with the implementation's answer as hint for free ones. -/
 def Cmp.resolve (c : Cmp) (hint : Bool) : Bool :=
